@@ -72,6 +72,8 @@ type activCase struct {
 	Op string  `json:"op"`
 	V  []int64 `json:"v"`
 	S  int     `json:"s"`
+	// alt: odd positions (1st, 3rd, ...) are scaled by 2^s, even positions by 2^-s
+	Alt bool `json:"alt"`
 	// factory: one extra registration on a private factory, and what an untouched / the customised registry answers
 	G         *extraReg    `json:"g"`
 	Untouched *registryObs `json:"untouched"`
@@ -326,7 +328,11 @@ func checkScalar(c *activCase, v *verdict) {
 func checkModule(c *activCase, v *verdict) {
 	in := make([]float64, len(c.V))
 	for i, k := range c.V {
-		in[i] = math.Ldexp(float64(k), c.S)
+		e := c.S
+		if c.Alt && i%2 == 1 {
+			e = -c.S
+		}
+		in[i] = math.Ldexp(float64(k), e)
 	}
 	want := math.Ldexp(float64(c.Yn), c.Ye)
 	a := neatmath.NodeActivators
